@@ -235,7 +235,18 @@ def plugins_for(cfg):
     if cfg.get('activity'):
         from sqlalchemy_continuum.plugins import ActivityPlugin
         ps.append(ActivityPlugin())
+    if cfg.get('txargs'):
+        # a plugin that supplies an attribute of the transaction record (what FlaskPlugin does with remote_addr)
+        from sqlalchemy_continuum.plugins.base import Plugin
+
+        class ArgsPlugin(Plugin):
+            def transaction_args(self, uow, session):
+                return {'remote_addr': TXARG}
+        ps.append(ArgsPlugin())
     return ps
+
+
+TXARG = '10.1.2.3'
 
 
 def options_for(cfg):
@@ -1259,6 +1270,33 @@ def run_program(env, cfg, prog, record=True, plain=False, fault=None, emulate_ac
                 act_problem = 'reading object_version / target_version: %s: %s' % (type(e).__name__, str(e)[:200])
             finally:
                 s3.close()
+        if act_problem is None and rec and env.versioned and cfg.get('shape') == 'inh':
+            # single-table inheritance: a version row of class C holds no value in a column of the shared table that C
+            # does not map (the row of a key that changed class must not keep the columns of the class it had)
+            for mi, part in enumerate(rec.parts):
+                if mi not in rec.vtabs:
+                    continue
+                vtb, txc, endc = rec.vtabs[mi]
+                m = sa.inspect(part['cls'])
+                if m.polymorphic_on is None or m.polymorphic_on.name not in vtb.c:
+                    continue
+                own = {part_column(part, k).name for k in rec.colkeys[part['py']] if part_column(part, k) is not None}
+                foreign = [c for c in vtb.c if c.name not in own and c.name not in (txc, endc, 'operation_type')
+                           and not c.name.endswith('_mod')]
+                if not foreign:
+                    continue
+                q = sa.select(vtb).where(vtb.c[m.polymorphic_on.name] == m.polymorphic_identity)
+                for row in env.connection.execute(q).mappings():
+                    bad = [c.name for c in foreign if row[c.name] is not None]
+                    if bad:
+                        act_problem = 'version row of %s (transaction %s) holds a value in column %s, which the class does not have' % (
+                            part['cls'].__name__, row[txc], bad[0])
+        if act_problem is None and rec and env.versioned and cfg.get('txargs'):
+            # every transaction record carries the attribute the plugin supplied
+            txt = env.manager.transaction_cls.__table__
+            for row in env.connection.execute(sa.select(txt.c.id, txt.c.remote_addr).order_by(txt.c.id)):
+                if row[1] != TXARG:
+                    act_problem = 'transaction record %s lacks the plugin-supplied attribute (remote_addr = %r)' % (row[0], row[1])
         ce = None
         if rec and env.versioned and cfg.get('read_changed_entities'):
             # the real Transaction.changed_entities of every record, through a fresh session on the same connection
